@@ -92,7 +92,14 @@ func c04Follow(v interface{}) string {
 			step("MarshalJSON", func() { _, _ = ap.MarshalJSON(it) })
 			step("GobEncode", func() { _, _ = ap.GobEncode(it) })
 			step("ItemsEqual", func() { _ = ap.ItemsEqual(it, it) })
-			step("GetID/GetType/GetLink", func() { _ = it.GetID(); _ = it.GetType(); _ = it.GetLink(); _ = it.IsObject(); _ = it.IsLink(); _ = it.IsCollection() })
+			step("GetID/GetType/GetLink", func() {
+				_ = it.GetID()
+				_ = it.GetType()
+				_ = it.GetLink()
+				_ = it.IsObject()
+				_ = it.IsLink()
+				_ = it.IsCollection()
+			})
 			step("Format", func() { _ = fmt.Sprintf("%v %s %+v", it, it, it) })
 			step("Flatten", func() { _ = ap.FlattenProperties(it) })
 			step("Recipients", func() {
@@ -346,7 +353,7 @@ func c04Deep(n int, open, close string, core string) []byte {
 
 func c04GobCorpus(c *Ctx) [][]byte {
 	var out [][]byte
-	cfg := &GenCfg{MaxDepth: 2, Density: 18, Zones: true, Nanos: true, ValueNodes: true, Links: true, EmptyTypes: true, Negatives: true, MultiLang: true}
+	cfg := &GenCfg{MaxDepth: 2, Density: 18, Zones: true, GobZones: true, Nanos: true, ValueNodes: true, Links: true, EmptyTypes: true, Negatives: true, MultiLang: true}
 	for i := 0; i < c.N(40, 400); i++ {
 		typ := allGoTypes[c.R.Intn(len(allGoTypes))]
 		tr := cfg.genNode(c.R, typ, 2, false)
@@ -465,7 +472,9 @@ func init() {
 				c.Fail("C04/alloc:"+eps[idx].name, fmt.Sprintf("%s allocated %d bytes on %d bytes of input", eps[idx].name, res.Alloc, len(data)), in)
 			}
 		}
-		isJSON := func(n string) bool { return strings.HasSuffix(n, "UnmarshalJSON") || strings.HasSuffix(n, "UnmarshalText") }
+		isJSON := func(n string) bool {
+			return strings.HasSuffix(n, "UnmarshalJSON") || strings.HasSuffix(n, "UnmarshalText")
+		}
 		// 1. tiny inputs at every entry point
 		for idx := range eps {
 			runCase(idx, nil, "tiny/empty")
